@@ -289,9 +289,14 @@ fn check_doc(env: &SchemaEnv, doc: &Document, text: &str, st: &mut Stats) -> Res
         walk_set(env, &op.selection_set, root, &mut c)?;
     }
     for (name, fr) in &edoc.fragments {
-        let Some(mf) = doc.fragments().find(|f| f.name == name.as_str()) else {
+        // several source fragments may share the name (an invalid document): which of them apollo
+        // keeps is its choice (it skips one whose type condition is undefined); the kept one must be
+        // typed by the condition of ONE of them
+        let same_name: Vec<_> = doc.fragments().filter(|f| f.name == name.as_str()).collect();
+        if same_name.is_empty() {
             return Err(("fragment-not-in-source".into(), format!("fragment {name} is not in the source document")));
-        };
+        }
+        let mf = same_name.iter().find(|f| f.on == fr.selection_set.ty.as_str()).unwrap_or(&same_name[0]);
         walk_set(env, &fr.selection_set, &mf.on, &mut c)?;
     }
     st.count("fields-typed", c.fields);
